@@ -1,7 +1,7 @@
 #!/usr/bin/env python3
 """Confirm a seeded change and run the checks against it, without touching /repo.
 
-usage: tools/seeded.py <dir with patch.diff + demo.py> <Cxx> [--tests] [--runs N] [--keep <dest>]
+usage: tools/seeded.py <dir with patch.diff + demo.py> <Cxx> [--tests] [--tests-only] [--runs N] [--keep <dest>]
 
 1. copies the current /repo working tree (pydcop/, tests/) to a scratch directory in /dev/shm;
 2. runs demo.py on the copy (must exit 0), applies patch.diff, runs demo.py again (must fail);
@@ -71,6 +71,14 @@ def main():
                                         "stable_check": outb.strip()[-600:],
                                         "stable_all_pass": rcb == 0}
         meta["checks"] = {}
+        if "--tests-only" in args:
+            # refresh only the test-suite comparison of an already confirmed seed
+            old = json.load(open(os.path.join(keep, "meta.json")))
+            old["tests_on_changed"] = meta.get("tests_on_changed")
+            with open(os.path.join(keep, "meta.json"), "w") as f:
+                json.dump(old, f, indent=1)
+            print(json.dumps(old["tests_on_changed"], indent=1))
+            return 0
         for pr in [prop] + [p for p in extra_props if p != prop]:
             env2 = {"PYDCOP_SRC": scratch, "VERIF_EVIDENCE_DIR": os.path.join(scratch, "ev"),
                     "VERIF_REPLAY_DIR": os.path.join(scratch, "rp")}
